@@ -9,7 +9,7 @@ use alloc::string::String;
 use alloc::string::ToString;
 use alloc::collections::btree_map::BTreeMap;
 use chrono::NaiveDateTime;
-use chrono::Utc;
+use crate::session::Session;
 use crate::compiler::date::DateItem;
 use crate::compiler::date_time::DateTimeItem;
 use crate::compiler::duration::DurationItem;
@@ -191,10 +191,10 @@ pub fn get_month(field_name: &str, fields: &BTreeMap<String, Rc<TokenInfo>>) -> 
     }
 }
 
-pub fn get_number_or_time(config: &SmartCalcConfig, field_name: &str, fields: &BTreeMap<String, Rc<TokenInfo>>) -> Option<(NaiveDateTime, TimeOffset)> {
+pub fn get_number_or_time(config: &SmartCalcConfig, session: &Session, field_name: &str, fields: &BTreeMap<String, Rc<TokenInfo>>) -> Option<(NaiveDateTime, TimeOffset)> {
     match get_number(field_name, fields) {
         Some(number) => {
-            let date = Utc::now().naive_local().date();
+            let date = session.now().date();
             let time = chrono::NaiveTime::from_hms_opt(number as u32, 0, 0)?;
             Some((NaiveDateTime::new(date, time), config.get_time_offset()))
         },
